@@ -2,7 +2,7 @@
    Scope: expressions of Fmt/Ast.v except dict/set literals and closures (those are modelled and tied,
    not proved); statements and declarations are covered by correspondence and the oracle only. *)
 From Coq Require Import ZArith NArith List Bool.
-From Verif Require Import Fmt.Ast Fmt.Print Fmt.Parse Fmt.Wf Fmt.Roundtrip C08.Model C08.Proofs.
+From Verif Require Import Fmt.Ast Fmt.Print Fmt.Parse Fmt.Wf Fmt.Roundtrip Fmt.Bytes C08.Model C08.Proofs.
 Import ListNotations.
 Local Open Scope nat_scope.
 
@@ -64,3 +64,15 @@ Theorem C08_parser_output_wf_refuted : exists ts s,
   exists s', parse_stmt 100 (print_stmt s) = POk (s', []) /\ s' <> s.
 Proof. destruct compound_desugar_refuted as (A & B & C). eexists _, _. repeat split; eassumption. Qed.
 Print Assumptions C08_parser_output_wf_refuted.
+
+(* T8  byte-string literals at character level: scanning what the printer writes between the double quotes gives back
+       exactly the bytes, for EVERY list of bytes (0..255), with explicit fuel; and the reason an escape table that
+       also escapes the apostrophe is wrong: in a double-quoted literal a backslash-apostrophe is kept as two bytes *)
+Theorem C08_bytes_escape_roundtrip : forall bs rest fuel, Forall is_byte bs -> length bs < fuel ->
+  scan fuel 34%Z (escape bs ++ 34%Z :: rest) = Some (bs, rest).
+Proof. exact scan_escape. Qed.
+Print Assumptions C08_bytes_escape_roundtrip.
+
+Theorem C08_apostrophe_not_unescaped : forall rest, scan_step 34%Z (92 :: 39 :: rest)%Z = Some (inr ([92; 39]%Z, rest)).
+Proof. exact apostrophe_kept. Qed.
+Print Assumptions C08_apostrophe_not_unescaped.
